@@ -94,7 +94,7 @@ def rand_program_touch(rng, nc, depth):
     pr = rand_program(rng, nc, depth)
     for s in pr["script"]:
         if len(s["p"]) < depth and rng.random() < 0.4:
-            s["ch"] = rng.choice(["touch", "dense"])
+            s["ch"] = rng.choice(["touch", "dense", "copyin", "clearit"])
             s["v"] = rng.randint(0, nc - 1)
     return pr
 
@@ -112,7 +112,7 @@ def side_check(ctx, prop, clause_from, clause_to, n=None):
         events += v["n"]
         for (_, cl) in v["fails"]:
             if cl == clause_from or cl == "P:C05:no-exception":
-                touch = any(s["ch"] in ("touch", "dense") for s in lg["script"])
+                touch = any(s["ch"] in ("touch", "dense", "copyin", "clearit") for s in lg["script"])
                 viol.append({"clause": clause_to if cl == clause_from else clause_to + "-exception", "op": "populate" + (":touch" if touch else ""),
                              "where": classify(lg), "step": 1,
                              "detail": {"exc": lg["exc"]}, "pop": True,
@@ -216,6 +216,9 @@ def classify(lg):
 
 def run(ctx):
     progs, design, states = programs(ctx)
+    # bodies that act on an offered sub-fiber as a whole (create a path below it, walk it densely, assign the source's sub-fiber, clear it): outside the
+    # modelled write choices, judged for "z remains a well-formed member of its tensor throughout" only
+    progs += [rand_program_touch(ctx.rng, 2, ctx.rng.choice([2, 3, 3])) for _ in range(400 if ctx.quick else 5000)]
     behs, logs, verdicts, vstats, tviol = run_programs(ctx, "C05", progs)
     violations, devs, clauses = list(tviol), {}, {}
     events = 0
